@@ -169,7 +169,9 @@ func EmissionCap(c types.Address, e uint64, epochMomentums int64) (*big.Int, *bi
 
 var RewardContracts = []types.Address{types.PillarContract, types.SentinelContract, types.StakeContract, types.LiquidityContract}
 
-func Rewards(ms store.Momentum, epochMomentums int64) []Rew {
+// extra holds, per reward contract, an allowance on top of the protocol emission: the liquidity
+// contract distributes an administrator-configured additional reward out of its own (donated) balance.
+func Rewards(ms store.Momentum, epochMomentums int64, extra map[string][2]*big.Int) []Rew {
 	out := []Rew{}
 	for _, c := range RewardContracts {
 		st := storageOf(ms, c)
@@ -207,6 +209,10 @@ func Rewards(ms store.Momentum, epochMomentums int64) []Rew {
 		sort.Slice(es, func(i, j int) bool { return es[i] < es[j] })
 		for _, e := range es {
 			cz, cq := EmissionCap(c, e, epochMomentums)
+			if x, ok := extra[c.String()]; ok {
+				cz = new(big.Int).Add(cz, x[0])
+				cq = new(big.Int).Add(cq, x[1])
+			}
 			r.Hist = append(r.Hist, EpochCredit{E: int(e), Znn: ToDigits(sums[e][0]), Qsr: ToDigits(sums[e][1]), CapZnn: ToDigits(cz), CapQsr: ToDigits(cq)})
 		}
 		dz, dq := new(big.Int), new(big.Int)
@@ -231,8 +237,17 @@ func Rewards(ms store.Momentum, epochMomentums int64) []Rew {
 
 // StandardObserver adds liabilities and rewards to every Mom event.
 func StandardObserver(epochMomentums int64) func(p *Projector, h uint64, ms store.Momentum, ev Event) {
+	maxAdd := [2]*big.Int{new(big.Int), new(big.Int)}
 	return func(p *Projector, h uint64, ms store.Momentum, ev Event) {
 		ev["liab"] = LiabSums(Liabilities(ms))
-		ev["rew"] = Rewards(ms, epochMomentums)
+		if li, err := definition.GetLiquidityInfo(storageOf(ms, types.LiquidityContract)); err == nil && li != nil {
+			if li.ZnnReward != nil && li.ZnnReward.Cmp(maxAdd[0]) > 0 {
+				maxAdd[0] = new(big.Int).Set(li.ZnnReward)
+			}
+			if li.QsrReward != nil && li.QsrReward.Cmp(maxAdd[1]) > 0 {
+				maxAdd[1] = new(big.Int).Set(li.QsrReward)
+			}
+		}
+		ev["rew"] = Rewards(ms, epochMomentums, map[string][2]*big.Int{types.LiquidityContract.String(): maxAdd})
 	}
 }
